@@ -88,6 +88,8 @@ class DataSpec(object):
     """data given to ChannelObject + expected read-back (kind, dtype-rule, values)"""
     def __init__(self, data, kind, expect, dtype_rule):
         self.data, self.kind, self.expect, self.dtype_rule = data, kind, expect, dtype_rule
+        # what the caller's array holds when it is handed over (the writer must leave it like that)
+        self.digest = (data.tobytes(), data.dtype.str) if isinstance(data, np.ndarray) and data.dtype != object else None
 
 
 def rand_data(rng, kind, n):
@@ -404,8 +406,8 @@ def run_program(prog, nptdms, tmpdir, stream_factory=io.BytesIO):
                     before = (stream.tell(), istream.tell() if istream is not None else None)
                 else:
                     before = (w._file.tell(), w._index_file.tell() if w._index_file is not None else None)
-                inputs = [(o['data'].kind, o['data'].data, o['data'].data.tobytes(), o['data'].data.dtype.str) for o in seg
-                          if o.get('data') is not None and isinstance(o['data'].data, np.ndarray) and o['data'].data.dtype != object]
+                inputs = [(o['data'].kind, o['data'].data, o['data'].digest[0], o['data'].digest[1]) for o in seg
+                          if o.get('data') is not None and getattr(o['data'], 'digest', None) is not None]
                 handed = {'list': lambda x: x, 'tuple': tuple, 'generator': lambda x: (y for y in x), 'iter': iter}[getattr(prog, 'container', 'list')](objs)
                 try:
                     w.write_segment(handed)
